@@ -169,7 +169,17 @@ fn gen_case(r: &mut Rng, prop: &str) -> LCase {
     let k = match prop { "C15" => 1 + r.below(7), _ => r.below(7) };
     for _ in 0..k {
         let idx = r.below(body.len() as u64) as usize;
-        if prop == "C21" && removed[idx] && !r.chance(1, 10) { continue; }
+        if prop == "C21" && removed[idx] {
+            // mostly nothing inside a removed region; sometimes a special-mode probe on an inner construct (it must vanish)
+            let op = &body[idx];
+            if r.chance(1, 3) && (op.is_blockish() || op.is_branchy()) {
+                let m = if op.is_blockish() { *r.pick(&[Mode::BlockEntry, Mode::BlockExit, Mode::SemanticAfter]) } else { Mode::SemanticAfter };
+                let ops = gen_probe(r, &mut pid);
+                plan.push((idx, m, ops));
+                continue;
+            }
+            if !r.chance(1, 10) { continue; }
+        }
         let op = &body[idx];
         let (blockish, branchy) = (op.is_blockish(), op.is_branchy());
         let mode = loop {
